@@ -50,3 +50,41 @@ Proof.
   exists x. split; assumption.
 Qed.
 Print Assumptions C03_rq_whole_spline_onto.
+
+(* ---- change of variables through the WHOLE rational-quadratic spline: for every accepted configuration, all unnormalised
+   parameters and every base density phi continuous on the target interval, the density phi(F x) * exp(logabsdet x) of the
+   spline flow integrates over [left, right] to exactly the base mass of [bottom, top].  (Bin by bin - inside a bin the generated
+   output formula is smooth with the continuous derivative exp(logabsdet) - and glued with Chasles.) ---- *)
+Theorem C03_rq_whole_spline_change_of_variables :
+  forall (c : @rq_cfg R) (bx : @box R) (uw uh ud : list R), rq_wellformed c bx uw uh ud ->
+  forall phi : R -> R, (forall y, b_bottom bx <= y <= b_top bx -> continuous phi y) ->
+  is_RInt (fun x => phi (F c bx uw uh ud x) * exp (Flad c bx uw uh ud x)) (b_left bx) (b_right bx)
+          (RInt phi (b_bottom bx) (b_top bx)).
+Proof.
+  intros c bx uw uh ud [H1 [H2 [H3 [H4 [H5 [H6 [H7 [H8 [H9 [H10 H11]]]]]]]]]] phi Hphi.
+  exact (whole_change_of_variables c bx uw uh ud H1 H2 H3 H4 H5 H6 H7 H8 H9 H10 H11 phi Hphi).
+Qed.
+Print Assumptions C03_rq_whole_spline_change_of_variables.
+
+(* ---- the one-dimensional flow Flow(rational-quadratic spline with linear tails, StandardNormal): exp(log_prob), built from the
+   generated flow_log_prob, Gaussian energy term and normaliser, integrates over [-A, A] to exactly the standard normal mass of
+   [-A, A], for every A beyond the tail bound, every accepted configuration and ALL unnormalised parameters; with
+   C05_gaussian_normaliser_certificate that mass is within 1e-6 / sqrt(2 pi) of one at A = 8 ---- *)
+From Coq Require Import Lra Arith.
+From NF Require Import Gen.SplineRQ Proofs.SplineRQTails Proofs.FlowNormalised Proofs.DistP.
+Theorem C03_rq_spline_flow_carries_the_base_mass :
+  forall (c : @rq_cfg R) (B : R) (uw uh ud : list R), 0 < B ->
+  rq_wellformed c {| b_left := - B; b_right := B; b_bottom := - B; b_top := B |} uw uh
+                (rq_tail_constant Rops (min_derivative c) :: ud ++ (rq_tail_constant Rops (min_derivative c) :: nil)) ->
+  forall A, B <= A ->
+  is_RInt (fun x => exp (spline_flow_log_prob c B uw uh ud x)) (- A) A (RInt (fun y => exp (sn_lp1 y)) (- A) A).
+Proof. intros c B uw uh ud HB Hwf A HA. apply spline_flow_carries_the_base_mass; assumption. Qed.
+Print Assumptions C03_rq_spline_flow_carries_the_base_mass.
+
+(* the hypotheses are met by the library's default configuration with three bins, tail bound 3 and any parameters *)
+Example C03_default_spline_flow_is_covered : forall (u1 u2 u3 h1 h2 h3 e1 e2 : R),
+  rq_wellformed (rq_default_cfg Rops) {| b_left := - 3; b_right := 3; b_bottom := - 3; b_top := 3 |}
+                (u1 :: u2 :: u3 :: nil) (h1 :: h2 :: h3 :: nil)
+                (rq_tail_constant Rops (min_derivative (rq_default_cfg Rops)) :: (e1 :: e2 :: nil) ++
+                 (rq_tail_constant Rops (min_derivative (rq_default_cfg Rops)) :: nil)).
+Proof. intros. apply default_wellformed; cbn; try reflexivity; try lra. split; [apply Nat.lt_0_succ | repeat constructor]. Qed.
